@@ -82,6 +82,90 @@ CHECKS = {
             "assignments, and every created class must reach the patched hook exactly once.", TRUST, "4/C18, 3.1"),
 }
 
+
+CHECKS.update({
+    "C06": ("exprgen", "exploration", "Hypothesis-generated typed condition expressions rendered as in-decorator lambdas; "
+            "oracle = CPython evaluation of an instrumented copy of the same expression (per-node values), message parsed "
+            "and matched by AST",
+            "Conditions over the supported expression forms (names from arguments/closure/globals/builtins with "
+            "shadowing, attributes, subscripts, slices, calls with keyword/star arguments, all operators, chains, "
+            "conditional and assignment expressions, f-strings, displays, comprehensions, all/any) on require/ensure/"
+            "invariant, def/async def; every shown value must be a_repr of what CPython computed for that "
+            "sub-expression, all() examples must be the first falsifying assignment, and (no None-bound name) every "
+            "argument and every evaluated name/attribute/call/subscript/comprehension must be listed.",
+            "Trusted: CPython's evaluation of the instrumented expression, ast.unparse, the message grammar parser. "
+            "f-string interiors restricted to argument names; nothing lexically inside a comprehension is required by "
+            "the completeness clause.", "4/C06, 3.3"),
+    "C07": ("exprgen", "exploration", "Hypothesis-generated guarded partial operations and grammar expressions x source "
+            "layouts x neighbouring decorators x nesting; oracles: CPython verdict, AST round-trip of the reported "
+            "text, probe-set inclusion",
+            "Guard templates (xs and xs[0] > k, o.child is None or ..., 0 < n < 10 // n, ...) with inputs on both sides "
+            "of the guard and probe-instrumented grammar expressions are placed under seven decorator layouts, 0..2 "
+            "neighbouring decorators above/below, three nestings, three roles, three error forms, sync/async; the "
+            "caller must get exactly the configured error, with correct location/description, a condition text that "
+            "parses to the generated expression, and no probe evaluated that Python's short-circuit skipped.",
+            "Trusted: CPython, ast. Layouts come from an explicit layout grammar, not from all token-level freedom.",
+            "4/C07, 3.3"),
+    "C10": ("progmodel", "exploration", "Hypothesis-generated call graphs with scripts in conditions/captures/factories/"
+            "invariants/bodies x all truth assignments; oracle = reference suspension semantics R + event budget for "
+            "termination",
+            "1..4 contracted functions and an invariant-carrying class with two instances; conditions, captures, error "
+            "factories, invariants and bodies call any function/method any number of times (bodies bounded by fuel); "
+            "the run must terminate within 4x the reference's event count and evaluate exactly the contracts the "
+            "reference R evaluates.", TRUST, "4/C10, 3.1.5"),
+    "C11": ("faults", "fault_enumeration", "enumeration of every injection point x 7 fault kinds per generated program "
+            "(raise at k-th condition / __bool__ / capture / factory / body / argument __repr__ / async gate throw+close) "
+            "+ drawn two-fault sequences; probe suite compared with a fresh thread",
+            "For every generated program each event where the library calls user code becomes an injection point; each "
+            "of 7 exception kinds (Exception and BaseException families, CancelledError, RecursionError) is injected "
+            "there once; the surfaced exception must be the injected object or its documented wrapper, the following "
+            "probe calls must behave as in a fresh thread and the suspension set must be empty.",
+            TRUST + "Faults are injected where user code runs, not between bytecodes of the wrappers.", "4/C11, 3.5"),
+    "C12": ("sched", "exploration", "harness-owned schedules: exhaustive enumeration of all interleavings of gate-to-gate "
+            "segments of 2-task scenarios, Hypothesis-drawn 3-task schedules; emulated asyncio tasks "
+            "(Context.run(coro.send)) and real threads with a baton",
+            "Concurrent calls with individually chosen verdicts on one function / one object / two objects, in four "
+            "context-inheritance modes (fresh, copied before/after the parent's first checked call, copied context in a "
+            "worker thread); every call's verdict under every explored schedule must equal its verdict when run alone.",
+            "Trusted: the task emulation equals asyncio's context handling. Pre-emption inside the wrappers' own bytecode "
+            "is not scheduled (DESIGN section 7).", "4/C12, 3.4"),
+    "C14": ("sigmodel+progmodel", "exploration", "differential testing against the bare callable (Hypothesis signatures x "
+            "call shapes x decorator stacks) and against an undecorated twin class hierarchy (generated histories)",
+            "Satisfied stacks of 1..5 contract decorators with foreign functools.wraps decorators in between on every "
+            "callable kind, sync/async: identity of arguments/results/exceptions, metadata, signature, __wrapped__ chain "
+            "length and single checker; generated class hierarchies with satisfied contracts must behave like their "
+            "twin without any contract (outcomes, bodies run, abstractness).",
+            "Trusted: CPython. Pickling/copying/metaclass conflicts are not explored.", "4/C14"),
+    "C15": ("workers", "exploration", "complete enumeration of decorator x enabled x kind in 9 worker interpreters "
+            "(python/-O/-OO x ICONTRACT_SLOW unset/''/'1') + metamorphic comparison of generated enabled=True programs "
+            "across interpreter modes",
+            "Every cell of the matrix is evaluated inside interpreters started with the respective flags and environment; "
+            "disabled decorators must return the very object, leave vars() unchanged and never call the condition; "
+            "explicitly enabled programs must give identical traces under python, -O and -OO.",
+            "Trusted: the expected-enabled table transcribed from the statement; harness code avoids assert.", "4/C15, 3.6"),
+    "C17": ("progmodel", "exploration", "Hypothesis-generated HISTORIES of definitions (functions, roots, sub-classes, "
+            "siblings, multiple inheritance, invariants at any level), executed block by block; invariant after every "
+            "step: introspection lists and probe-suite traces of all earlier definitions unchanged (metamorphic)",
+            "After each definition step of a generated module the ids in every earlier checker's precondition groups, "
+            "postconditions, snapshots and in __invariants__/__invariants_on_call__/__invariants_on_setattr__ and the "
+            "event traces of a probe suite (construct, every member under all-truthy and all-falsy tables, attribute "
+            "assignment) are compared with what they were right after that definition.",
+            "Trusted: CPython; before/after comparison of the same library.", "4/C17"),
+    "C19": ("sigmodel", "exploration", "complete enumeration of misuse kind x decorator x callable kind with negative "
+            "twins + Hypothesis-generated signatures with one parameter renamed to a reserved name",
+            "Every misuse named in the statement is constructed on every decorator/callable kind it can occur on; the "
+            "exception class and the moment (decorator creation / application / call) must be as stated, and the twin "
+            "without the misuse must be accepted.", "Trusted: CPython.", "4/C19"),
+    "C20": ("exprgen+workers", "exploration", "metamorphic relations over generated violations: keyword permutations, "
+            "positional/keyword passing, repetitions, worker interpreters with other PYTHONHASHSEED values; CPython "
+            "oracle with the contract's own a_repr for every rendering",
+            "Messages of generated violations (default and drawn per-contract reprlib.Repr limits, long strings/lists, "
+            "sets of ints and strings, function/class/module arguments, _ARGS/_KWARGS named or not) must be identical "
+            "across all permutations of four keyword arguments, three repetitions and hash seeds 0/1/4242/random, sorted "
+            "by key, rendered through the contract's a_repr, free of unrepresentable values.",
+            "Trusted: CPython, reprlib. Mixed-type sets excluded.", "4/C20"),
+})
+
 PENDING = {}
 
 ALL = ["C%02d" % i for i in range(1, 21)]
